@@ -1,6 +1,9 @@
-(* C02 — Seeks return the exact ceiling, floor or match of the probe key.  Statements only.
-   Proved so far: the specification functions compute the ceiling / floor the property describes.
-   The refinement of the cursor (Reader.cstep) to them is validated by the correspondence. *)
+(* C02 — Seeks return the exact ceiling, floor or match for any probe.  Statements only.
+   The specification functions compute the ceiling / floor the property describes (C02_ceil_spec,
+   C02_floor_spec); in-block seeks return them on every well-formed block; the multi-level cursor
+   returns them from ANY state of ANY well-formed store of any depth (C02_seeks, from the refinement R);
+   and every file the writer model finishes is such a store whose content is the inserted entries
+   (C02_written_file_seeks, from W). *)
 From Grenad.model Require Import Base Block Reader Spec.
 From Grenad.proofs Require Import SpecProofs.
 
